@@ -14,6 +14,8 @@ from symgo import Program, Executor, State, Unsupported, UnwindError, Inconclusi
 
 REPO = os.environ.get('VERIF_REPO', '/repo')
 WORKROOT = os.environ.get('VERIF_WORK', os.path.join(VERIF, '.work'))
+MAX_MODELS_PER_ENTRY = 3
+MAX_REPLAYS = int(os.environ.get('VERIF_MAX_REPLAYS', '4'))
 DUMP_SMT = os.environ.get('VERIF_DUMP_SMT')
 VERBOSE = bool(os.environ.get('VERIF_VERBOSE'))
 EVID_DIR = os.environ.get('VERIF_EVIDENCE_DIR', os.path.join(VERIF, 'evidence'))
@@ -223,7 +225,7 @@ def array_model(model, c, ibits):
     return {'default': default, 'entries': entries}
 
 
-def run_entry(world, entry, config=None, timeout_ms=120000, known=None, want_models=True, max_unwind=None, setup=None, only=None, skip_implicit=False):
+def run_entry(world, entry, config=None, timeout_ms=120000, known=None, want_models=True, max_unwind=None, setup=None, only=None, skip_implicit=False, interp_budget_s=900, solve_budget_s=1800):
     """symbolically execute one harness entry; discharge its obligations. Returns a dict."""
     prog = world.prog
     ex = world.ex
@@ -247,6 +249,7 @@ def run_entry(world, entry, config=None, timeout_ms=120000, known=None, want_mod
         except Inconclusive as e:
             return {'entry': entry, 'config': cfg, 'obligations': [], 'status': 'inconclusive', 'error': 'setup: %s' % e}
     st = world.st.fork()
+    ex2.deadline = time.time() + interp_budget_s
     fn = prog.funcs[entry]
     res = {'entry': entry, 'config': cfg, 'obligations': [], 'status': 'ok'}
     t0 = time.time()
@@ -266,12 +269,17 @@ def run_entry(world, entry, config=None, timeout_ms=120000, known=None, want_mod
     res['feas_queries'] = ex2.stats['feas']
     res['exits'] = len(ex2.events)
     nq = 0
+    nfail = 0
     tsolve = 0.0
     for ob in ex2.obligations:
         # a fresh solver per obligation: without push/pop z3 runs its full preprocessing (the pixel-composition query of
         # C15 is unsat in 14 s this way and in 458 s through an incremental solver)
         solver = z3.Solver()
-        solver.set('timeout', timeout_ms)
+        left_ms = int((solve_budget_s - tsolve) * 1000)
+        if left_ms <= 0:
+            res['obligations'].append({'kind': ob.kind, 'name': ob.name, 'pos': short_pos(ob.pos), 'result': 'unknown', 'reason': 'solver budget of this entry exhausted', 'solve_s': 0})
+            continue
+        solver.set('timeout', min(timeout_ms, left_ms))
         if ob.kind == 'assert' and only is not None and not re.match(only, ob.name):
             continue
         if skip_implicit and ob.kind not in ('assert', 'reach'):
@@ -304,6 +312,14 @@ def run_entry(world, entry, config=None, timeout_ms=120000, known=None, want_mod
             o['result'] = 'holds'
         elif r == z3.sat:
             o['result'] = 'FAILS'
+            nfail += 1
+            if nfail > MAX_MODELS_PER_ENTRY:
+                # enough counterexamples from this entry: the verdict is recorded, the model is not extracted
+                o['model'] = None
+                o['solve_s'] = round(time.time() - t1, 3)
+                tsolve += time.time() - t1
+                res['obligations'].append(o)
+                continue
             m = solver.model()
             o['model'] = model_to_json(ex2, m, cfg)
             # known regions
@@ -497,9 +513,13 @@ class Check:
         confirmed = []
         os.makedirs(os.path.join(VERIF, 'replays', self.prop), exist_ok=True)
         seen_names = set()
+        skipped_replays = 0
         for r, o in violations:
             key = (r['entry'], json.dumps(r.get('config'), sort_keys=True), o['name'], o['kind'])
             if key in seen_names and len(confirmed) >= 1:
+                continue
+            if len(confirmed) >= MAX_REPLAYS or o.get('model') is None:
+                skipped_replays += 1
                 continue
             seen_names.add(key)
             short = r['entry'].rsplit('.', 1)[-1]
@@ -532,6 +552,8 @@ class Check:
                 confirmed.append((mf, r, o, rp))
         if getattr(self, 'partial', False):
             inconclusive.append('partial run (VERIF_ONLY_ENTRY)')
+        if skipped_replays:
+            self.notes.append('%d further failing obligations were not replayed (replay cap %d reached)' % (skipped_replays, MAX_REPLAYS))
         status = 'ok'
         if confirmed:
             status = 'violation'
@@ -541,7 +563,7 @@ class Check:
             print(l)
         for mf, r, o, rp in confirmed:
             print('VIOLATION property=%s replay=%s' % (self.prop, mf))
-            log('  entry=%s config=%s obligation=%s kind=%s pos=%s native=%s' % (r['entry'], r.get('config'), o['name'], o['kind'], o.get('pos'), {k: rp.get(k) for k in ('failures', 'panic')}))
+            log('  entry=%s config=%s obligation=%s kind=%s pos=%s native=%s' % (r['entry'], r.get('config'), o['name'], o['kind'], o.get('pos'), {'failures': (rp.get('failures') or [])[:6], 'panic': rp.get('panic')}))
         for m in inconclusive[:40]:
             log('INCONCLUSIVE: ' + m)
         self.write_evidence(status=status, level=level, explanation=explanation, nobl=nobl, ndis=ndis, nq=nq, tsolve=tsolve, tinterp=tinterp,
